@@ -125,6 +125,24 @@ fn pst13(n_cases: usize) -> Value {
                 if p.is_zero() && !cp.is_zero() {
                     return Err("zero polynomial does not map to the identity".into());
                 }
+                // representation independence: the same polynomial with its term list reversed, and with one
+                // monomial split over two entries (both are valid values of the public `terms` field: the
+                // library evaluates, commits to and opens them)
+                if p.terms.len() >= 2 {
+                    let mut rev = p.clone();
+                    rev.terms.reverse();
+                    if commit(&rev)? != cp {
+                        return Err(format!("PST13 commitment depends on the order of the term list ({} vars, degree {}, {})", nv, d, cls));
+                    }
+                    let mut split = p.clone();
+                    let (c0, t0) = split.terms[0].clone();
+                    let half = c0 * ark_ff::Field::inverse(&F::from(2u64)).unwrap();
+                    split.terms[0].0 = half;
+                    split.terms.push((c0 - half, t0));
+                    if commit(&split)? != cp {
+                        return Err(format!("PST13 commitment differs when one monomial is split over two terms ({} vars, degree {}, {})", nv, d, cls));
+                    }
+                }
                 let (a, b) = (F::rand(&mut rng), F::rand(&mut rng));
                 let mut lin = MvPoly::<F>::zero();
                 lin += (a, &p);
